@@ -7,6 +7,8 @@ cd "$(dirname "$0")/.."
 N="${1:-400}"
 make -s -j16 sim >/dev/null 2>&1; make -s repo >/dev/null 2>&1
 BIN=$(ls -d build/repo-$(printf '%s' "${VERIF_REPO:-/repo}" | md5sum | cut -c1-10)-asan)/lltdsim
+make -s repo FLAVOUR=plain >/dev/null 2>&1
+PLAIN=build/repo-$(printf '%s' "${VERIF_REPO:-/repo}" | md5sum | cut -c1-10)-plain/lltdsim
 T=build/tmp/determ.$$; mkdir -p $T
 fail=0
 for p in C01 C02 C03 C04 C05 C06 C07 C08 C09 C10 C11 C12 C13 C14 C15 C16 C17 C19; do
@@ -15,10 +17,12 @@ for p in C01 C02 C03 C04 C05 C06 C07 C08 C09 C10 C11 C12 C13 C14 C15 C16 C17 C19
     cat $T/$p.w$w.* | sort -n > $T/$p.w$w.all; rm -f $T/$p.w$w.[0-9]*
   done
   $BIN hashes $p --runs $((N/4)) --tmp $T 2>/dev/null | awk '{print $1, $2}' | sort -n > $T/$p.iso
+  # (e) the un-sanitized build must produce the same logs as the ASan+UBSan build (no address, padding or timing enters the log)
+  if [ -x "$PLAIN" ]; then $PLAIN hashes $p --runs $((N/4)) --tmp $T 2>/dev/null | awk '{print $1, $2}' | sort -n > $T/$p.plain; cmp -s $T/$p.iso $T/$p.plain || { echo "DIFF $p: plain and sanitized builds disagree"; fail=1; }; fi
   a=$(md5sum < $T/$p.w16.all); b=$(md5sum < $T/$p.w3.all); c=$(md5sum < $T/$p.w1.all)
   iso_bad=$(join $T/$p.iso $T/$p.w1.all | awk '$2 != $3' | wc -l)
   n=$(wc -l < $T/$p.w1.all)
-  if [ "$a" = "$b" ] && [ "$b" = "$c" ] && [ "$iso_bad" = 0 ] && [ "$n" -ge "$N" ]; then echo "OK   $p: $n indices identical at 16/3/1 workers; $(wc -l < $T/$p.iso) isolated children agree"; else echo "DIFF $p: w16=$a w3=$b w1=$c isolated-mismatches=$iso_bad n=$n"; fail=1; fi
+  if [ "$a" = "$b" ] && [ "$b" = "$c" ] && [ "$iso_bad" = 0 ] && [ "$n" -ge "$N" ]; then echo "OK   $p: $n indices identical at 16/3/1 workers; $(wc -l < $T/$p.iso) isolated children agree, plain build agrees"; else echo "DIFF $p: w16=$a w3=$b w1=$c isolated-mismatches=$iso_bad n=$n"; fail=1; fi
 done
 rm -rf $T
 exit $fail
